@@ -46,7 +46,7 @@ Expected(op, a, b, e) ==
       [] op = "double" -> AddF(a, a)
       [] op = "square" -> MulF(a, a)
       [] op = "cube"   -> MulF(MulF(a, a), a)
-      [] op = "exp"    -> ExpF(a, e)
+      [] op \in {"exp", "exp_vartime"} -> ExpF(a, e)
       [] op = "mul_small" -> MulF(a, e)
       [] op \in {"conj", "bytes_roundtrip"} -> RedF(a)
 
